@@ -6,7 +6,7 @@ CHECKS = {
  "C01": ("property-based testing (Hypothesis scenes) vs construction witnesses and a certified reference GJK",
          "generated-input search over all 100 ordered collider pairs and four scene families against an independent oracle; held on everything explored"),
  "C02": ("property-based testing (Hypothesis): scenes that are clear by construction (separating plane / common interior point) or by certified reference GJK, all boolean tests + distance query",
-         "generated-input search; every asserted scene carries an independent witness of 'gap >= delta' or 'overlap >= delta'; held on everything explored"),
+         "generated-input search; every asserted scene carries an independent witness of 'gap >= delta' or 'overlap >= delta'; one open known finding (MPR on coplanar flat pairs)"),
  "C03": ("property-based testing (Hypothesis): collider specs x direction sequences vs closed-form support values and signed-distance bounds; mesh history vs fresh object",
          "generated-input search over all collider kinds, poses and special directions against closed-form reference support functions; held on everything explored"),
  "C04": ("property-based testing (Hypothesis): AABB bounds vs closed-form support values along +-e_i; RigidBody vs world-frame vertex bounds; overlap consequence on constructed overlapping scenes",
